@@ -81,6 +81,11 @@ class Lib:
         _used(E, "numpy elementwise arithmetic (broadcast scalar / equal shapes)")
         a, b = as_array(l, st), as_array(r, st)
         if a is None or b is None:
+            known = a if a is not None else b
+            if known is not None and known.ndim >= 1:
+                # array (op) unknown value: an array of the same shape with unknown contents
+                return st.alloc(ArrData(known.shape, fresh_sel("opq", known.kind if known.kind != "b" else "f", known.ndim),
+                                        known.kind if known.kind != "b" else "f"))
             return Opaque("array-binop")
         if a.kind == "o" or b.kind == "o":
             shape = a.shape if a.ndim >= b.ndim else b.shape
